@@ -10,8 +10,11 @@ int  sched_self(void);
 int  sched_runnable_others(void);
 int  sched_unfinished_others(void);
 int  sched_thread_done(int id);
+int  sched_cond_waiters(void);                // threads currently blocked in a condition wait
 void sched_run_others(void);                  // run the other threads until none of them is runnable
 void sched_wait_thread(int id);               // block (cooperatively) until thread id has finished
+void sched_park(void);                        // block the caller until another thread calls sched_unpark(id)
+void sched_unpark(int id);
 void sched_join_all(void);                    // wait for every other thread, then pthread_join them
 void sched_end(void);
 uint64_t sched_switches(void);
